@@ -229,6 +229,18 @@ def make_variant(src_path, ops, seed, out_path):
             d = b.get("Display")
             if d in MIRROR:
                 b.set("Display", MIRROR[d])
+    if "group_all" in ops:
+        # every page-level fragment and label selected and grouped (ChemDraw's Group command): one <group> holding them all,
+        # in stored or reversed order; which fragment a label names is still decided by the drawing (label under its fragment)
+        kids = [k for k in list(page) if k.tag in ("fragment", "t")]
+        if kids:
+            grp = ET.Element("group", {"id": "49999"})
+            pos0 = list(page).index(kids[0])
+            for k in kids:
+                page.remove(k)
+            for k in (kids if seed % 2 else kids[::-1]):
+                grp.append(k)
+            page.insert(pos0, grp)
     if "permute_top" in ops:
         kids = list(page)
         for k in kids:
@@ -411,7 +423,7 @@ def strat_drawn(tier):
     frag = st.fixed_dictionaries({"skel": st.sampled_from(["ring", "ring", "chain"]), "n": st.integers(3, 7), "rot": st.integers(0, 30), "aromatic": st.sampled_from([False, False, True]),
                                   "atoms": st.lists(atom, min_size=1, max_size=7), "orders": st.lists(st.integers(0, 4), min_size=1, max_size=7), "subs": st.lists(sub, max_size=6)})   # (stereo marks on skeleton bonds of NEW drawings are not generated: the unchanged tree's ring-bond heuristic does not
                                                                       #  satisfy the mirror relation on them - outside the quantifier, see DESIGN 10.4)
-    ops = st.lists(st.sampled_from(["permute_top", "translate", "renumber", "permute_nodes"]), max_size=2, unique=True)
+    ops = st.lists(st.sampled_from(["permute_top", "translate", "renumber", "permute_nodes", "group_all"]), max_size=2, unique=True)
     return st.fixed_dictionaries({"drawing": st.fixed_dictionaries({"frags": st.lists(frag, min_size=1, max_size=3), "caption": st.booleans()}), "ops": ops, "seed": st.integers(0, 10**6)})
 
 
@@ -459,7 +471,7 @@ def check(recipe) -> list[Fail]:
         from collections import Counter
         r0 = ET.parse(src).getroot()
         cnt = Counter(t.findall("./s")[0].text for t in r0.findall("./page/t") + r0.findall("./page/group/t") if len(t.findall("./s")) == 1 and t.findall("./s")[0].get("face", "0") == "1")
-        ambiguous = {k for k, v in cnt.items() if v > 1} if "permute_top" in ops else set()
+        ambiguous = {k for k, v in cnt.items() if v > 1} if ("permute_top" in ops or "group_all" in ops) else set()
         nt_keys = []
         nt_abs = []
         n = 0
@@ -582,7 +594,7 @@ def enum_identity(tier, shard, nshards):
 
 
 def strat_variants(tier):
-    ops = st.lists(st.sampled_from(["permute_top", "translate", "renumber", "permute_nodes"]), min_size=1, max_size=4, unique=True)
+    ops = st.lists(st.sampled_from(["permute_top", "translate", "renumber", "permute_nodes", "group_all"]), min_size=1, max_size=4, unique=True)
     return st.fixed_dictionaries({"file": st.sampled_from(FILES), "ops": ops, "seed": st.integers(0, 10**6)})
 
 
